@@ -194,10 +194,14 @@ structure DrvSt where
   sniffPorts : List (Nat × Nat) := Keys.sniffPortsDefault
   directPorts : List (Nat × Nat) := Keys.directPortsDefault
   hpMaxRetry : Nat := 2
+  hpFailTtl : Nat := 2000000000
+  hpJanitorIv : Nat := 250000000
   /-- conn-state registration done by `handlePkt`: (endpoint, "src>dst") pairs held by open endpoints -/
   hpTuples : List (Nat × String) := []
   /-- the creation in progress has registered its endpoint already (inside the table write's critical section) -/
   epRegDone : Bool := false
+  /-- ingress stream: datagrams in the order the socket delivered them -/
+  ing : Ingress.Spec.St := {}
 
 def boolTok? : String → Option Bool
   | "1" => some true | "0" => some false | _ => none
@@ -264,11 +268,13 @@ def handleTrk (st : DrvSt) (toks : List String) : DrvSt × String :=
 def hpDigest (s : Route.St) : String :=
   let entries := (List.range s.neps).filterMap fun e =>
     if s.pool (s.eps e).key = some e then some s!"{ekeyStr (s.eps e).key}={e}" else none
+  -- negative-cache markers occupy their key's table slot (no conn: shown as -1)
+  let entries := entries ++ s.markers.map fun m => s!"{ekeyStr m.1}=-1"
   let sorted := (entries.toArray.qsort (· < ·)).toList
   let p := if sorted.isEmpty then "-" else ",".intercalate sorted
   let eps := (List.range s.neps).map fun e => s!"{e}:d{boolStr (s.eps e).dead}c{boolStr (s.eps e).closed}"
   let es := if eps.isEmpty then "-" else " ".intercalate eps
-  s!"dials={s.dials} eps={es} pool={p}"
+  s!"dials={s.dials} fails={s.fails} eps={es} pool={p}"
 
 /-- `443,8443` / `53,3478,5004-5060` / `-` -/
 def rangesTok? (tok : String) : Option (List (Nat × Nat)) :=
@@ -287,11 +293,21 @@ def handleHp (st : DrvSt) (toks : List String) : DrvSt × String :=
   let trk (t : List (Nat × String)) :=
     s!"trk={2 * (t.map (·.2)).eraseDups.length}:{2 * t.length}"
   match toks with
-  | ["reset"] => ({ st with hp := { Route.init with maxRetry := st.hpMaxRetry }, hpTuples := [] }, "ok")
-  | ["consts", mr, sniff] =>
-    match mr.toNat?, rangesTok? sniff with
-    | some mr, some sn => ({ st with hpMaxRetry := mr, sniffPorts := sn, hp := { st.hp with maxRetry := mr } }, "ok")
-    | _, _ => (st, "bad-op")
+  | ["reset"] =>
+    ({ st with hp := { Route.init with maxRetry := st.hpMaxRetry, failTtl := st.hpFailTtl, janitorIv := st.hpJanitorIv,
+                                       nextJanitor := st.hpJanitorIv }, hpTuples := [] }, "ok")
+  | ["consts", mr, sniff, jiv, fttl] =>
+    match mr.toNat?, rangesTok? sniff, jiv.toNat?, fttl.toNat? with
+    | some mr, some sn, some j, some f =>
+      ({ st with hpMaxRetry := mr, sniffPorts := sn, hpFailTtl := EpDrv.ms f, hpJanitorIv := EpDrv.ms j,
+                 hp := { st.hp with maxRetry := mr } }, "ok")
+    | _, _, _, _ => (st, "bad-op")
+  | ["adv", dt] =>
+    match dt.toNat? with
+    | some dt =>
+      let s' := Route.advance s (EpDrv.ms dt)
+      ({ st with hp := s' }, s!"{hpDigest s'} {trk st.hpTuples}")
+    | none => (st, "bad-op")
   | ["classify", src, dst, payload] =>
     match apTok? src, apTok? dst with
     | some src, some dst =>
@@ -299,11 +315,14 @@ def handleHp (st : DrvSt) (toks : List String) : DrvSt × String :=
       (st, s!"al={boolStr al} qi={boolStr (al && payload == "quic")} hs=0 sameKey=1")
     | _, _ => (st, "bad-op")
   | ["inval"] => (st, s!"removed=0 {hpDigest s} {trk st.hpTuples}")   -- every endpoint of this stream has carried traffic: it survives
-  | "pkt" :: src :: dst :: hs :: qi :: al :: sens :: ws :: rest =>
+  | "pkt" :: src :: dst :: hs :: qi :: al :: sens :: ws :: ds :: rest =>
     match apTok? src, apTok? dst, boolTok? hs, boolTok? qi, boolTok? al, boolTok? sens, routingTok? rest with
     | some src, some dst, some hs, some qi, some al, some sens, some r =>
       let wl : List Bool := if ws = "-" then [] else ws.toList.map (· == '1')
-      let res := Route.handle s ⟨⟨src, dst, hs, qi, al⟩, r, sens⟩ wl
+      let dl : List Bool := if ds = "-" then [] else ds.toList.map (· == '1')
+      -- `handleD` = `handle` (the function of the theorems) when no dial fails and no marker exists
+      -- (RouteProofs.handleD_eq_handle)
+      let res := Route.handleD s ⟨⟨src, dst, hs, qi, al⟩, r, sens⟩ wl dl
       let c := match res.2 with | some e => s!"e{e}" | none => "none"
       let pair := s!"{apStr src}>{apStr dst}"
       let t1 := match res.2 with
@@ -319,6 +338,43 @@ def handleHp (st : DrvSt) (toks : List String) : DrvSt × String :=
       let t := live s' st.hpTuples
       ({ st with hp := s', hpTuples := t }, s!"{hpDigest s'} {trk t}")
     | none => (st, "bad-op")
+  | _ => (st, "bad-op")
+
+/-- stream `c13_ing`: the production ingress statements of `Serve` (batch loop, `processPacket`) in front of the
+real task pool.  `ing dgram i src dst` — datagram `i` as the socket delivered it: which flow key its task
+got, who ran the task (`by=` the queue of which flow / `direct`), how often; `ing log src dst` — execution
+order of the tasks that ran under the queue of that flow; `ing direct` — the datagrams run on goroutines
+of their own. -/
+def handleIng (st : DrvSt) (toks : List String) : DrvSt × String :=
+  let keyStr (k : Keys.AP × Keys.AP) := s!"{apStr k.1}|{apStr k.2}"
+  match toks with
+  | ["consts", direct] =>
+    match rangesTok? direct with
+    | some di => ({ st with directPorts := di }, "ok")
+    | none => (st, "bad-op")
+  | ["reset"] => ({ st with ing := {} }, "ok")
+  | ["dgram", i, src, dst] =>
+    match i.toNat?, apTok? src, apTok? dst with
+    | some i, some src, some dst =>
+      if i ≠ st.ing.arrived.length then (st, "bad-op") else
+      let d : Ingress.Dgram := ⟨src, dst⟩
+      let s' := Ingress.Spec.arrive st.ing d
+      let by_ := match Ingress.Spec.runsUnder st.directPorts s' i with
+        | some (some k) => keyStr k
+        | some none => "direct"
+        | none => "?"
+      ({ st with ing := s' }, s!"key={keyStr (Ingress.flowKey d)} by={by_} runs=1")
+    | _, _, _ => (st, "bad-op")
+  | ["log", src, dst] =>
+    match apTok? src, apTok? dst with
+    | some src, some dst => (st, joinNat (Ingress.Spec.flowOrder st.directPorts st.ing (src, dst)))
+    | _, _ => (st, "bad-op")
+  | ["direct"] =>
+    let ids := (List.range st.ing.arrived.length).filter fun i =>
+      match st.ing.arrived[i]? with
+      | some d => !Ingress.ordered st.directPorts d
+      | none => false
+    (st, joinNat ids)
   | _ => (st, "bad-op")
 
 def handleIb (st : DrvSt) (toks : List String) : DrvSt × String :=
@@ -534,7 +590,43 @@ def handleEp (st : DrvSt) (toks : List String) : DrvSt × String :=
       | .created e => upd r.1 s!"new {e}"
       | .errFailed => upd r.1 "err-failed"
     | _, _, _, _, _, _ => (st, "bad-op")
+  | ["goc", k, sym, nat, owner, drain, d, "transient"] =>
+    -- the dial fails with a transient local error (EADDRINUSE …): neither reported nor remembered
+    match k.toNat?, boolTok? sym, nat.toNat?, EpDrv.optTok? owner, EpDrv.optTok? drain, d.toNat? with
+    | some k, some sym, some nat, some owner, some drain, some d =>
+      let r := EP.getOrCreate s k sym (EpDrv.ms nat) owner drain d .failNoAlive
+      match r.2 with
+      | .errDial => upd (EP.countDial r.1) "err-dial"
+      | .hit e => upd r.1 s!"hit {e}"
+      | .created e => upd r.1 s!"new {e}"
+      | .errFailed => upd r.1 "err-failed"
+    | _, _, _, _, _, _ => (st, "bad-op")
   | ["goc", k, sym, nat, owner, drain, d, out] =>
+    if out.startsWith "unreach+" then
+      -- the first dial finds the network unreachable (one dial counted, nothing remembered), then
+      -- `createEndpointLocked` selects again and dials once more inside the same call: the outcome of the
+      -- call is the outcome of that second attempt (composition of the model's own steps)
+      let cs := out.toList.drop 8
+      let snd := String.ofList cs
+      let kind := if snd = "noalive" then "noalive" else String.ofList cs.dropLast
+      let d2? : Option Nat := if snd = "noalive" then d.toNat? else cs.getLast?.map fun c => c.toNat - '0'.toNat
+      match k.toNat?, boolTok? sym, nat.toNat?, EpDrv.optTok? owner, EpDrv.optTok? drain, d2? with
+      | some k, some sym, some nat, some owner, some drain, some d2 =>
+        let dial? : Option (EP.DialOutcome × Nat) := match kind with
+          | "ok" => some (.ok, 1) | "gen" => some (.failGeneric, 1) | "noalive" => some (.failNoAlive, 1)
+          | "unreach" => some (.failNoAlive, 2) | "transient" => some (.failNoAlive, 2) | _ => none
+        match dial? with
+        | some (o, extra) =>
+          let r := EP.getOrCreate s k sym (EpDrv.ms nat) owner drain d2 o
+          let bump (x : EP.St) := if extra = 2 then EP.countDial (EP.countDial x) else EP.countDial x
+          (match r.2 with
+            | .hit e => upd r.1 s!"hit {e}"
+            | .errFailed => upd r.1 "err-failed"
+            | .created e => upd (bump r.1) s!"new {e}"
+            | .errDial => upd (bump r.1) "err-dial")
+        | none => (st, "bad-op")
+      | _, _, _, _, _, _ => (st, "bad-op")
+    else
     match k.toNat?, boolTok? sym, nat.toNat?, EpDrv.optTok? owner, EpDrv.optTok? drain, d.toNat?,
       (match out with | "ok" => some EP.DialOutcome.ok | "gen" => some .failGeneric | "noalive" => some .failNoAlive | _ => none) with
     | some k, some sym, some nat, some owner, some drain, some d, some out =>
@@ -695,6 +787,7 @@ def handle (st : DrvSt) (line : String) : DrvSt × String :=
   | "krn" :: rest => handleKrn st rest
   | "hp" :: rest => handleHp st rest
   | "ib" :: rest => handleIb st rest
+  | "ing" :: rest => handleIng st rest
   | ["key", "consts", sniff, direct] =>
     match rangesTok? sniff, rangesTok? direct with
     | some sn, some di => ({ st with sniffPorts := sn, directPorts := di }, "ok")
